@@ -118,12 +118,18 @@ type VC struct {
 	tids   map[string]int
 	props  []string
 	quantDepth int
+	idxUses    map[string][]string // during pass 1 of a quantifier: bound variable -> slice terms it indexes
+	qvarNames  map[string]string // SMT binder name -> source name
+	plainUses  map[string]bool
+	lineBlk    []int          // block index each line was generated in (-1: function entry / global)
+	curBlk     int
+	ancestors  map[int]map[int]bool // block -> set of blocks that can reach it (forward edges only), incl. itself
 }
 
 func newVC(eng *Engine, fn *ssa.Function) *VC {
 	return &VC{eng: eng, fn: fn, fkey: funcKey(fn), sorts: newSorts(), declared: map[string]bool{}, heaps: map[string]*heapInfo{},
 		epochBound: map[int]string{}, strLits: map[string]string{}, oblNames: map[string]int{}, vals: map[ssa.Value]Val{},
-		locs: map[ssa.Value]*Loc{}, tuples: map[ssa.Value][]Val{}, tids: map[string]int{}}
+		locs: map[ssa.Value]*Loc{}, tuples: map[ssa.Value][]Val{}, tids: map[string]int{}, qvarNames: map[string]string{}, curBlk: -1, ancestors: map[int]map[int]bool{}}
 }
 
 func (vc *VC) fresh(prefix string) string {
@@ -136,7 +142,7 @@ func (vc *VC) declConst(name, sort string) {
 		return
 	}
 	vc.declared[name] = true
-	vc.lines = append(vc.lines, fmt.Sprintf("(declare-const %s %s)", name, sort))
+	vc.addLine(fmt.Sprintf("(declare-const %s %s)", name, sort))
 }
 func (vc *VC) declFun(name string, args []string, ret string) {
 	if vc.declared[name] {
@@ -157,17 +163,38 @@ func (vc *VC) define(prefix, sort, term string) string {
 	}
 	n := vc.fresh(prefix)
 	vc.declared[n] = true
-	vc.lines = append(vc.lines, fmt.Sprintf("(define-fun %s () %s %s)", n, sort, term))
+	vc.addLine(fmt.Sprintf("(define-fun %s () %s %s)", n, sort, term))
 	return n
 }
 func (vc *VC) assume(cond string, f string) {
 	if f == "true" {
 		return
 	}
-	vc.lines = append(vc.lines, "(assert "+sImp(cond, f)+")")
+	vc.addLine("(assert "+sImp(cond, f)+")")
 }
+func (vc *VC) addLine(l string) {
+	vc.lines = append(vc.lines, l)
+	vc.lineBlk = append(vc.lineBlk, vc.curBlk)
+}
+
+// relevantLines: the lines generated at function entry or in blocks that can reach the current block.
+func (vc *VC) relevantLines() string {
+	anc := vc.ancestors[vc.curBlk]
+	if vc.curBlk < 0 || anc == nil {
+		return strings.Join(vc.lines, "\n")
+	}
+	var b strings.Builder
+	for i, l := range vc.lines {
+		if blk := vc.lineBlk[i]; blk < 0 || anc[blk] {
+			b.WriteString(l)
+			b.WriteByte('\n')
+		}
+	}
+	return b.String()
+}
+
 func (vc *VC) comment(s string) {
-	vc.lines = append(vc.lines, "; "+strings.ReplaceAll(s, "\n", " "))
+	vc.addLine("; "+strings.ReplaceAll(s, "\n", " "))
 }
 
 func (vc *VC) unsupported(format string, a ...interface{}) {
@@ -192,8 +219,7 @@ func (vc *VC) oblige(name, kind, cond, goal, detail string, pos string) *Obligat
 		vc.obls = append(vc.obls, o)
 		return o
 	}
-	body := strings.Join(vc.lines, "\n")
-	o.Script = body + "\n(assert (not " + sImp(cond, goal) + "))\n"
+	o.Script = vc.relevantLines() + "\n(assert (not " + sImp(cond, goal) + "))\n"
 	vc.obls = append(vc.obls, o)
 	return o
 }
@@ -202,7 +228,7 @@ func (vc *VC) oblige(name, kind, cond, goal, detail string, pos string) *Obligat
 func (vc *VC) probe(name, cond, detail string) {
 	full := vc.fkey + "#" + name
 	o := &Obligation{Name: full, Kind: "vacuity", Func: vc.fkey, Detail: detail, ExpectSat: true, fn: vc.fn, vc: vc, Props: vc.props}
-	o.Script = strings.Join(vc.lines, "\n") + "\n(assert " + cond + ")\n"
+	o.Script = vc.relevantLines() + "\n(assert " + cond + ")\n"
 	vc.obls = append(vc.obls, o)
 }
 
@@ -348,7 +374,7 @@ func (vc *VC) freshHeapVersion(hi *heapInfo, term string, bound string) {
 	case 1:
 		inv := vc.sorts.typeInv(hi.valType, "(select "+term+" r!)", bound)
 		if inv != "true" {
-			vc.lines = append(vc.lines, fmt.Sprintf("(assert (forall ((r! Int)) (! %s :pattern ((select %s r!)))))", inv, term))
+			vc.addLine(fmt.Sprintf("(assert (forall ((r! Int)) (! %s :pattern ((select %s r!)))))", inv, term))
 		}
 	case 2:
 		ks := hi.keySort
@@ -357,7 +383,7 @@ func (vc *VC) freshHeapVersion(hi *heapInfo, term string, bound string) {
 		}
 		inv := vc.sorts.typeInv(hi.valType, "(select (select "+term+" r!) i!)", bound)
 		if inv != "true" {
-			vc.lines = append(vc.lines, fmt.Sprintf("(assert (forall ((r! Int) (i! %s)) (! %s :pattern ((select (select %s r!) i!)))))", ks, inv, term))
+			vc.addLine(fmt.Sprintf("(assert (forall ((r! Int) (i! %s)) (! %s :pattern ((select (select %s r!) i!)))))", ks, inv, term))
 		}
 	}
 }
@@ -395,12 +421,12 @@ func (vc *VC) allocRef(st *State) string {
 	if r == st.nextRef {
 		r2 := vc.fresh("ref")
 		vc.declared[r2] = true
-		vc.lines = append(vc.lines, fmt.Sprintf("(define-fun %s () Int %s)", r2, st.nextRef))
+		vc.addLine(fmt.Sprintf("(define-fun %s () Int %s)", r2, st.nextRef))
 		r = r2
 	}
 	nr := vc.fresh("nextRef")
 	vc.declared[nr] = true
-	vc.lines = append(vc.lines, fmt.Sprintf("(define-fun %s () Int (+ %s 1))", nr, r))
+	vc.addLine(fmt.Sprintf("(define-fun %s () Int (+ %s 1))", nr, r))
 	st.nextRef = nr
 	return r
 }
